@@ -22,7 +22,11 @@ FAR = (L + 5000, L + 5100)  # a far out-of-range second range
 OVER = (L + 50, U + 200)  # a second, overlapping range
 V0, V1 = 7 * 10**9, 3 * 10**18  # raw in-amounts (token0 = USDC 6 dec, token1 = WETH 18 dec)
 POOLS = {"small": 3 * 10**15, "large": 10**22}
-OPS = ["none", "swap", "add_far", "add_same", "remove_part", "collect", "add_remove", "add_over"]
+OPS = ["none", "swap", "add_far", "add_same", "remove_part", "collect", "add_remove", "add_over", "transfer_out", "transfer_out_in"]
+# a second grid centred on tick 0 (a stable / stable pool with equal decimals, fee 0.01 %, spacing 1): the previous close can be exactly 0
+ZL, ZU = -20, 20
+ZTICKS = [ZL - 2, ZL - 1, ZL, ZL + 1, 0, ZU - 1, ZU, ZU + 1, ZU + 30]
+GRIDS = {"std": (L, U, TICKS), "zero": (ZL, ZU, ZTICKS)}
 HOOKS = ["on_bar", "before_bar", "trigger", "after_prev"]
 REL = Fraction(1, 10**28)
 
@@ -36,9 +40,12 @@ def weight(a, b, lo, hi) -> Fraction:
     return Fraction(inter, y - x)
 
 
-def do_op(name):
+def do_op(name, grid="std"):
     from demeter.uniswap import PositionInfo
 
+    L, U, _ = GRIDS[grid]
+    FAR = (L + 5000, L + 5100)
+    OVER = (L + (50 if grid == "std" else 5), U + 200)
     main = PositionInfo(L, U)
 
     def f(strategy, snapshot):
@@ -58,6 +65,11 @@ def do_op(name):
         elif name == "add_remove":
             m.add_liquidity_by_tick(L, U, Decimal("0.3"), Decimal(300))
             m.remove_liquidity(main, liquidity=m.positions[main].liquidity // 4, collect=True, remove_dry_pool=False)
+        elif name == "transfer_out":  # the position is lent out (e.g. as vault collateral): it keeps earning, with the same share
+            m.transfer_position_out(main)
+        elif name == "transfer_out_in":
+            m.transfer_position_out(main)
+            m.transfer_position_in(main)
         elif name == "open":
             m.add_liquidity_by_tick(L, U, Decimal(1), Decimal(1500))
         elif name == "none":
@@ -75,7 +87,13 @@ def run_case(cfg):
 
     closes = cfg["closes"]
     n = len(closes)
-    pool = uni.pool_q0()
+    grid = cfg.get("grid", "std")
+    if grid == "std":
+        pool = uni.pool_q0()
+    else:
+        from demeter import TokenInfo
+
+        pool = uni.pool_q0(0.01, TokenInfo("USDC", 6), TokenInfo("USDT", 6))
     if cfg.get("vols", "std") == "std":
         in0 = [V0 * (i + 1) for i in range(n)]
         in1 = [V1 * (i + 2) for i in range(n)]
@@ -85,18 +103,18 @@ def run_case(cfg):
     liq = POOLS[cfg["pool"]]
     raw = uni.raw_frame(closes, in0, in1, liq, open_tick=closes[0], tick_dtype=cfg["dtype"])
     market = uni.make_market(pool, uni.prepared(raw, pool))
-    script = {("on_bar", cfg["open_bar"]): [do_op("open")]}
+    script = {("on_bar", cfg["open_bar"]): [do_op("open", grid)]}
     op, hook, ob = cfg["op"], cfg["hook"], cfg["op_bar"]
     if op != "none":
         if hook == "after_prev":
-            script.setdefault(("after_bar", ob - 1), []).append(do_op(op))
+            script.setdefault(("after_bar", ob - 1), []).append(do_op(op, grid))
         elif hook == "trigger":
             def init(strategy, _):
-                f = do_op(op)
+                f = do_op(op, grid)
                 strategy.triggers.append(AtTimeTrigger(raw.index[ob].to_pydatetime(), lambda snap: f(strategy, snap)))
             script[("initialize", -1)] = [init]
         else:
-            script.setdefault((hook, ob), []).append(do_op(op))
+            script.setdefault((hook, ob), []).append(do_op(op, grid))
     st = Scripted(script)
     obs = []
     real_update = market.update
@@ -108,7 +126,7 @@ def run_case(cfg):
         obs.append((before, after))
 
     market.update = wrapped_update
-    act = make_actuator([market], [(uni.USDC, 10**6), (uni.WETH, 1000)], st, market.get_price_from_data())
+    act = make_actuator([market], [(pool.token0, 10**6), (pool.token1, 10**6 if grid == "zero" else 1000)], st, market.get_price_from_data())
     err = None
     try:
         run_quiet(act)
@@ -121,7 +139,7 @@ def judge(part: Part, cfg):
     obs, op_errors, err, (in0, in1, pool_liq, pool) = run_case(cfg)
     part.count("runs")
     closes = cfg["closes"]
-    tag = f"{cfg['dtype']}"
+    tag = f"{cfg['dtype']}" + ("|zero-grid" if cfg.get("grid") == "zero" else "")
     if err is not None:
         part.violation(f"C08|exception|{err.split(':')[0]}|{tag}", f"bar loop raised while accruing fees: {err}", cfg)
         return
@@ -206,6 +224,11 @@ def configs(thorough):
     for a, b in itertools.product(TICKS[::2], repeat=2):
         out.append({"closes": [TICKS[4], a, b], "pool": "small", "dtype": "float64", "open_bar": 0, "op": "none", "op_bar": 1,
                     "hook": "on_bar", "vols": "zero"})
+    # (3) the grid centred on tick 0: all 3-bar paths (previous close exactly 0 among them), and lending the position out
+    for c in itertools.product(ZTICKS, repeat=3):
+        out.append({"closes": list(c), "pool": "small", "dtype": "float64", "open_bar": 0, "op": "none", "op_bar": 1, "hook": "on_bar", "grid": "zero"})
+    for a, b in itertools.product(ZTICKS, repeat=2):
+        out.append({"closes": [0, a, b], "pool": "small", "dtype": "int64", "open_bar": 0, "op": "transfer_out", "op_bar": 1, "hook": "on_bar", "grid": "zero"})
     if thorough:
         # 4 bars: all paths, with an op in bar 2 on both dtypes
         for c in itertools.product(TICKS, repeat=4):
@@ -238,7 +261,7 @@ def main(run: Run):
         "traces_validated_against_impl": runs,
         "evaluations": runs,
         "distinct_nontrivial": run.counters.get("nontrivial", 0),
-        "rule": f"close ticks from {TICKS} (range [{L},{U}]), all 3-bar paths (thorough: 4-bar), all (previous close, close) pairs "
+        "rule": f"close ticks from {TICKS} (range [{L},{U}]) and, on a stable pool, from {ZTICKS} (range [{ZL},{ZU}], previous close exactly 0 included), all 3-bar paths (thorough: 4-bar), all (previous close, close) pairs "
                 f"under same-bar operations {OPS[1:]} placed in before_bar / on_bar / a trigger / the previous after_bar, position "
                 "opened in bar 0, 1 or 2, pool liquidity small/large, ticks float64 and int64, distinct volumes per bar and zero "
                 "volume. states = (run, bar, position) fee deltas judged; distinct_nontrivial = those with positive expected fee.",
@@ -255,7 +278,7 @@ def main(run: Run):
 def replay(run: Run, path):
     data = json.load(open(path))
     c = data["case"]
-    cfg = {k: c[k] for k in ("closes", "pool", "dtype", "open_bar", "op", "op_bar", "hook") if k in c}
+    cfg = {k: c[k] for k in ("closes", "pool", "dtype", "open_bar", "op", "op_bar", "hook", "grid") if k in c}
     if "vols" in c:
         cfg["vols"] = c["vols"]
     part = Part()
